@@ -636,7 +636,7 @@ Proof.
   rewrite !arange_sym. rewrite !(hd_sym mx H). reflexivity.
 Qed.
 
-Ltac veq_tac := cbn; repeat split; first [reflexivity | ring | field].
+Ltac veq_tac := cbn; unfold Z.sub; rewrite ?inject_Z_plus, ?inject_Z_opp, ?inject_Z_mult; repeat split; first [reflexivity | ring | field].
 
 Lemma gen_pixel_ok : forall g r c, veq (gen_pixel (nz g) (ny g) (nx g) (max_shape g) (shift g) r c) (pixel g r c).
 Proof. intros. unfold gen_pixel, pixel, half, vadd, veq. veq_tac. Qed.
@@ -648,7 +648,8 @@ Lemma gen_pixel_rot_ok : forall g r c,
   veq (gen_pixel_rot (rot g) (nz g) (ny g) (nx g) (max_shape g) (shift g) r c) (pixel_rot g r c).
 Proof.
   intros. unfold gen_pixel_rot, pixel_rot, pixel, centre, half. destruct (rot g) as [[r0 r1] r2].
-  destruct r0 as [[? ?] ?], r1 as [[? ?] ?], r2 as [[? ?] ?]. unfold veq, vadd, vsub, mv, dot3. repeat split; first [reflexivity | ring | field].
+  destruct r0 as [[? ?] ?], r1 as [[? ?] ?], r2 as [[? ?] ?]. unfold veq, vadd, vsub, mv, dot3, Z.sub.
+  rewrite ?inject_Z_plus, ?inject_Z_opp, ?inject_Z_mult. repeat split; first [reflexivity | ring | field].
 Qed.
 
 Lemma gen_ray_ks_ok : forall w, gen_ray_ks w = ray_ks w.
